@@ -219,6 +219,31 @@ def classify_loop(b, loop, all_loops):
             rv = F.leftmost_var(c["args"][0]) if c.get("args") else None
             if rv is None or rv["id"] not in local_ids:
                 sinks.append((c, rv, field_path(c["args"][0])))
+    # cross-iteration state: a container that lives outside the loop is both written and read inside it, so what one
+    # iteration sees depends on which iterations ran before it
+    WRITES = {"insert", "push", "push_back", "remove", "extend", "clear", "retain", "entry", "append", "pop"}
+    READS = {"contains", "contains_key", "get", "get_mut", "len", "is_empty", "iter", "keys", "values", "first", "last", "index",
+             "get_key_value", "is_subset", "is_superset", "intersection", "difference"}
+    written, read = {}, {}
+    for c in F.exprs(body, "Call"):
+        nm = short(c.get("fn") or "")
+        if not c.get("args") or nm not in WRITES | READS:
+            continue
+        rv = F.leftmost_var(c["args"][0])
+        if rv is None or rv["id"] in local_ids:
+            continue
+        recv_ty = c["args"][0].get("ty", "") + F.strip(c["args"][0]).get("ty", "")
+        if not any(x in recv_ty for x in ("HashMap", "HashSet", "Vec<", "BTreeMap", "BTreeSet")):
+            continue
+        key = (rv["id"], field_path(c["args"][0]))
+        name = "%s%s" % (rv.get("name"), "." + ".".join(key[1]) if key[1] else "")
+        if nm in WRITES:
+            written[key] = name
+        if nm in READS:
+            read[key] = name
+    both = sorted(written[k] for k in written if k in read)
+    if both:
+        return "cross-iteration-state", "the loop both updates and reads %s, which outlives an iteration: the result depends on the hash order of the iterations" % ", ".join(both)
     early = [x for x in F.walk(body) if x.get("k") == "Return" and "e" in x and x.get("mac") is None]
     if early:
         return "early-exit", "the loop returns a value from inside a hash iteration"
